@@ -130,28 +130,43 @@ def ungetc (c : Option Nat) (r : List Nat) : List Nat :=
   | none => r
   | some c => c :: r
 
-/-- An unbuffered output stream with an injected fault: the first write call whose byte range
-    contains position `failAt` fails as a whole (the callback accepts nothing), sets the sticky
-    error indicator, and later writes succeed again (one-shot, the harshest case for code that
-    relies on `ferror`). `pos` counts the bytes the caller tried to write. -/
+/-- An unbuffered output stream over an arbitrary sink.  `sink pos n` is the number of bytes the sink accepts of
+    a write call of `n` bytes issued when `pos` bytes had been handed to the stream before (capped at `n`): any
+    prefix of any write call may be all that gets through (a short write: full disk, closed pipe, failing
+    callback).  `pos` counts the bytes the caller tried to write, `out` is what the sink took, `err` is the sticky
+    error indicator (`ferror`), set by every short write, `fired` the number of short write calls. -/
 structure OStream where
   out : List Nat := []
   pos : Nat := 0
-  failAt : Option Nat := none
+  sink : Nat → Nat → Nat := fun _ n => n
   err : Bool := false
   fired : Nat := 0
-  deriving Repr
 
-/-- one `fwrite (p, 1, n, fp)` / `fputc` on an unbuffered stream = one write call; returns the
-    stream and the number of bytes written -/
+/-- one `fwrite (p, 1, n, fp)` / `fputc` / `fprintf` on an unbuffered stream = one write call; returns the
+    stream and the number of bytes written (glibc: a cookie/`write` result below `n` sets the error flag and the
+    short count is what `fwrite` returns) -/
 def OStream.write (s : OStream) (chunk : List Nat) : OStream × Nat :=
   if chunk.isEmpty then (s, 0) else
-  match s.failAt with
-  | some k =>
-      if s.fired = 0 ∧ s.pos ≤ k ∧ k < s.pos + chunk.length then
-        ({ s with pos := s.pos + chunk.length, err := true, fired := s.fired + 1 }, 0)
-      else ({ s with pos := s.pos + chunk.length, out := s.out ++ chunk }, chunk.length)
-  | none => ({ s with pos := s.pos + chunk.length, out := s.out ++ chunk }, chunk.length)
+  let a := min (s.sink s.pos chunk.length) chunk.length
+  ({ s with out := s.out ++ chunk.take a, pos := s.pos + chunk.length,
+            err := s.err || decide (a < chunk.length),
+            fired := s.fired + (if a < chunk.length then 1 else 0) }, a)
+
+/-- the harness's failing sink (harness/ops_io.c `wr_write`): the write call containing byte `k` accepts the bytes
+    in front of `k` (nothing if `k` is its first byte), every later call accepts nothing -/
+def sinkFailAt (k : Nat) : Nat → Nat → Nat :=
+  fun pos n => if k < pos then 0 else if k < pos + n then k - pos else n
+
+/-- a one-shot fault: the write call containing byte `k` is cut short in front of `k`, later calls go through
+    again (catches code that looks at the last return value only and forgets the sticky error indicator) -/
+def sinkOnceAt (k : Nat) : Nat → Nat → Nat :=
+  fun pos n => if pos ≤ k ∧ k < pos + n then k - pos else n
+
+/-- stream with the fault of the harness at byte `k` (`none`: healthy) -/
+def OStream.failing (k : Option Nat) : OStream :=
+  match k with
+  | none => {}
+  | some k => { sink := sinkFailAt k }
 
 /-! ## 3. Raw format -/
 
@@ -414,28 +429,33 @@ def importWord (wbytes wbits : Nat) (w : List Nat) (s : ASt) : ASt :=
   let s1 := (w.take wbytes).foldl (fun s byte => accumulate 8 byte s) s
   if wbits ≠ 0 then accumulate wbits (w.getD wbytes 0 % 2 ^ wbits) s1 else s1
 
-/-- `mpz_import` (import.c:40): the normalised limbs of the result -/
+/-- `mpz_import` (import.c:51-166): the `zsize` limbs stored at `zp` before `done:` — by one of the three fast
+    paths (:60-90; `align` is the address of `data` modulo 8) or by the generic loop (:92-166) -/
+def mpz_import_fill (ptr : Bool) (count : Nat) (order : Int) (size : Nat) (endian : Int) (nail : Nat)
+    (align : Nat) (data : List Nat) : List Nat :=
+  let numb := 8 * size - nail
+  let endian := if endian = 0 then (-1 : Int) else endian
+  if nail = 0 ∧ size = 8 ∧ align = 0 ∧ order = -1 ∧ endian = -1 then
+    bytesToLimbs (data.take (8 * count))                                -- MPN_COPY
+  else if nail = 0 ∧ size = 8 ∧ align = 0 ∧ order = -1 ∧ endian = 1 then
+    (bytesToLimbs (data.take (8 * count))).map bswap                    -- MPN_BSWAP
+  else if nail = 0 ∧ size = 8 ∧ align = 0 ∧ order = 1 ∧ endian = -1 then
+    (bytesToLimbs (data.take (8 * count))).reverse                      -- MPN_REVERSE
+  else
+    let wbytes := numb / 8
+    let wbits := numb % 8
+    let ws := if ptr then unlayoutPtr order endian size count ((numb + 7) / 8) data
+              else unlayout order endian size count data
+    let s := ws.foldl (fun s w => importWord wbytes wbits w s) { limb := 0, lbits := 0, out := [] }
+    let out := if s.lbits ≠ 0 then s.limb :: s.out else s.out
+    out.reverse
+
+/-- `mpz_import` (import.c:40): the normalised limbs of the result (`done:` MPN_NORMALIZE, :168-171, on every path) -/
 def mpz_import_core (ptr : Bool) (count : Nat) (order : Int) (size : Nat) (endian : Int) (nail : Nat)
     (align : Nat) (data : List Nat) : List Nat :=
   let numb := 8 * size - nail
   let zsize := (count * numb + 63) / 64
-  let endian := if endian = 0 then (-1 : Int) else endian
-  let zp :=
-    if nail = 0 ∧ size = 8 ∧ align = 0 ∧ order = -1 ∧ endian = -1 then
-      bytesToLimbs (data.take (8 * count))                                -- MPN_COPY
-    else if nail = 0 ∧ size = 8 ∧ align = 0 ∧ order = -1 ∧ endian = 1 then
-      (bytesToLimbs (data.take (8 * count))).map bswap                    -- MPN_BSWAP
-    else if nail = 0 ∧ size = 8 ∧ align = 0 ∧ order = 1 ∧ endian = -1 then
-      (bytesToLimbs (data.take (8 * count))).reverse                      -- MPN_REVERSE
-    else
-      let wbytes := numb / 8
-      let wbits := numb % 8
-      let ws := if ptr then unlayoutPtr order endian size count ((numb + 7) / 8) data
-                else unlayout order endian size count data
-      let s := ws.foldl (fun s w => importWord wbytes wbits w s) { limb := 0, lbits := 0, out := [] }
-      let out := if s.lbits ≠ 0 then s.limb :: s.out else s.out
-      out.reverse
-  normalize (zp.take zsize)
+  normalize ((mpz_import_fill ptr count order size endian nail align data).take zsize)
 
 def mpz_import := mpz_import_core false
 def mpz_import_ptr := mpz_import_core true
@@ -625,9 +645,9 @@ def fprintfText (pre : List Nat) (width : Nat) (base : Nat) (x : Int) (post : Li
 
 /-- SPEC (manual: "Return the number of characters written, or -1 if an error occurred"; property
     C17: -1 when a write fails at any byte) -/
-def gmpFprintfSpec (s : OStream) (pre : List Nat) (width base : Nat) (x : Int) (post : List Nat) : Int × Nat :=
+def gmpFprintfSpec (k : Option Nat) (pre : List Nat) (width base : Nat) (x : Int) (post : List Nat) : Int × Nat :=
   let t := fprintfText pre width base x post
-  match s.failAt with
+  match k with
   | some k => if k < t.length then (-1, 1) else (t.length, 0)
   | none => (t.length, 0)
 
